@@ -24,7 +24,7 @@ theorem frame_genname (env : PEnv) (md : Maildir) (flags : Option Bytes) {w : Wo
   | succ fuel ih =>
     unfold genname
     simp only [bind_eq, pure_eq, call_bind]
-    generalize (decimalInt env.now ++ [46] ++ decimal env.pid ++ [95] ++ decimal (count + 1) ++ [46] ++ env.host ++
+    generalize (decimalInt env.now ++ [46] ++ decimal env.pid ++ [95] ++ decimal ((count + 1) % gennameWrap) ++ [46] ++ env.host ++
           flags.getD []) = nm
     split
     · exact ⟨fun _ => m, by intro _ _ h; cases h⟩
@@ -369,7 +369,7 @@ theorem sf_maildirMove (env : PEnv) {w : World} {src dst : Maildir} {ms : MsgSt}
       · exact MovePost.unchanged hlk hlt hf hloc m1
       · rename_i fl _
         unfold gennameStart
-        refine wpS_bind_mono (wpS_of_wp b1 (frame_genname env dst (some fl) hdh hpd hdd 4096 _ m1)) ?_
+        refine wpS_bind_mono (wpS_of_wp b1 (frame_genname env dst (some fl) hdh hpd hdd gennameAttempts _ m1)) ?_
         rintro b2 g w2 ⟨hnone, hsome⟩
         cases g with
         | none => exact MovePost.unchanged hlk hlt hf hloc (hnone rfl)
